@@ -115,7 +115,16 @@ fn gen_case(rng: &mut Rng) -> Case {
         3 => ("<math>", "</math>"),
         _ => ("<svg><foreignObject>", "</foreignObject></svg>"),
     };
-    doc.extend(open.as_bytes());
+    if ctx >= 2 && rng.chance(1, 2) {
+        // the namespace-changing tag itself carries attributes (it may be split by a write)
+        let root = if ctx == 3 { "math" } else { "svg" };
+        doc.extend(wl::encode_lossy_drop(enc, &wl::gen_start_tag(rng, root)).into_iter().filter(|b| *b != b'/'));
+        if ctx == 4 {
+            doc.extend(b"<foreignObject>");
+        }
+    } else {
+        doc.extend(open.as_bytes());
+    }
     let mut mode = String::from("ns");
     for _ in 0..rng.range(1, 3) {
         let name = match ctx {
@@ -143,6 +152,14 @@ fn gen_case(rng: &mut Rng) -> Case {
         }
     }
     doc.extend(close.as_bytes());
+    if rng.chance(1, 2) {
+        // what follows the island is HTML again (none of these names changes the context)
+        for _ in 0..rng.range(1, 2) {
+            let name = rng.pick(&["a", "input", "section", "x-y", "link", "td"]);
+            doc.extend(wl::encode_lossy_drop(enc, &wl::gen_start_tag(rng, name)));
+            doc.extend(b"t");
+        }
+    }
     wl::bomify(rng, &mut doc);
     // attribute names that really occur in the generated tags (for lookups / removals that hit)
     let mut present: Vec<String> = vec![];
